@@ -120,9 +120,12 @@ func pickISN(c *sim.Ctx, n int) uint32 {
 		return 1000
 	case 1: // wrap inside the stream
 		return uint32(0x100000000 - int64(c.Range(0, n+2)))
-	case 2: // around 2^30 and 3*2^30 (quarter rule)
-		if c.Draw(2) == 0 {
+	case 2: // the stream crosses 2^30, 2^31 or 3*2^30 (quarter and half of the space)
+		switch c.Draw(3) {
+		case 0:
 			return uint32(0x40000000 - int64(c.Range(0, n+2)))
+		case 1:
+			return uint32(0x80000000 - int64(c.Range(0, n+2)))
 		}
 		return uint32(0xC0000000 - int64(c.Range(0, n+2)))
 	case 3:
